@@ -173,12 +173,45 @@ PROPS['C31'] = dict(
     explanation='The loop body is verified from a havocked state under a loop contract, so the obligations hold for every iteration of every run; ghost per-iteration flags tie the callback, the pop and the push together.',
 )
 
+PROPS['C02'] = dict(
+    units=['k_enc', 'k_chk'], level='proof', design_ref='6/C02',
+    technique='CBMC harness contract on Message::encode(char **) extracted from the clang AST of runtime/message.cpp: the section encoders, field encoders, calc_chksum and fmt_chksum are assumed '
+              'models that log where and in which order they are asked to write; the wire-format facts this function is responsible for are postconditions over that ghost log',
+    text='Assembly step only (proved-modular): for every split of the message into header / body / trailer bytes (total below 10^7), every BeginString length up to 19 and every checksum value: '
+         'the sections are written contiguously in the order header, body, trailer starting HEADER_CALC_OFFSET bytes into the buffer; BodyLength is set, after all sections are written and before it is '
+         'rendered, to exactly the number of bytes between the BodyLength field and the CheckSum field; the 8= and 9= fields are written in that order so that they end exactly where the rest of the '
+         'header begins (the digit-count ladder agrees with the decimal length for every value -- the obligation an off-by-one boundary breaks); the checksum is computed after every covered byte is '
+         'written, over exactly the bytes from the first byte of 8= up to the CheckSum field, formatted and stored before the CheckSum field is rendered directly after the trailer; the returned length '
+         'is the whole message; suppression is cleared for 8, 9, 10; exceptions only for a missing mandatory field. calc_chksum itself is proved under C07. NOT decided: the rendering of individual '
+         'fields as decimal-tag=value SOH, schema position order inside a section, group count/element structure (MessageBase::encode / encode_group over the _pos multimap), fmt_chksum.',
+    note='MessageBase::encode(char*) (sections) and BaseField::encode(char*) (fields) are ASSUMED to write exactly the bytes they report; field order and group structure inside sections are not covered; '
+         'BeginString up to 19 characters and messages below 10^7 bytes are stated bounds',
+    trusted_base=COMMON_TRUST,
+    explanation='Each opaque encoder is a model that records the cursor it was given and a sequence number; contiguity, BodyLength, the checksummed span and the ordering constraints are then plain '
+                'arithmetic over that log, checked for all byte counts at once.',
+)
+
+PROPS['C15'] = dict(
+    units=['k_read'], level='proof', design_ref='6/C15',
+    technique='CBMC dfcc function contract + loop contract on FIXReader::sockRead extracted from the clang AST of connection.hpp; the socket is an assumed model delivering the next bytes of a '
+              'ghost inbound stream in arbitrary chunk sizes (k-witness content)',
+    text='Chunking conjunct (proved-modular, unbounded in the number of chunks): for every request of 1..8192 bytes and EVERY sequence of chunk sizes the socket chooses, sockRead either throws '
+         'PeerResetConnection or returns exactly the requested count, has consumed exactly that many bytes of the stream, and the buffer holds exactly the next stream bytes in order (each byte '
+         'lands at its own offset: the obligation a missing `+ rddone` breaks); every receive call is given room for the bytes it may write. NOT decided: FIXReader::read (preamble checks, '
+         'BodyLength bounds, the tag[32]/val[2048] buffers fed by extract_element, message assembly) and FIXReader::execute (thread/queue hand-off) -- read() is not under contract yet; '
+         'termination (the code retries for ever on EAGAIN).',
+    note='only sockRead is covered; Poco::Net::StreamSocket::receiveBytes is an ASSUMED model; errno is a plain variable',
+    trusted_base=COMMON_TRUST,
+    explanation='The inbound stream is a ghost cursor plus one watched position; the loop invariant says the bytes received so far sit at their stream offsets, so any chunking yields the same buffer.',
+)
+
 # ---------------------------------------------------------------- native replayers
 import os
 from vlib import replay as _rp
 
 
 def _replay_k_chk(oid, inputs, trace, wd):
+    inputs = inputs or {}
     exe = _rp.build_native(os.path.join(_rp.VERIF, 'replay', 'k_chk.cpp'), os.path.join(wd, 'replay_k_chk'))
     out = dict(steps=[])
     sz, off, ln = (_rp.num(inputs.get(k, '')) for k in ('sz', 'offset', 'len'))
@@ -294,6 +327,18 @@ def _replay_k_log(oid, inputs, trace, wd):
     return dict(steps=[dict(kind='native contract-checking search: real FileLogger, every level mask x every level, return values and file content', rc=rc, output=o[-1500:])], reproduced=rc == 1)
 
 
+def _replay_k_enc(oid, inputs, trace, wd):
+    R = _rp.astdump.REPO
+    # generated FIX42 test classes and the rest of the runtime come from the repository's built libraries; Message::encode itself is compiled from the working tree
+    exe = _rp.build_native(os.path.join(_rp.VERIF, 'replay', 'k_enc.cpp'), os.path.join(wd, 'replay_k_enc'),
+                           extra=[R + '/runtime/message.cpp', '-I/repo/utests', '-L/repo/utests/.libs', '-lutest', '-L/repo/runtime/.libs', '-lfix8',
+                                  '-Wl,-rpath,/repo/utests/.libs', '-Wl,-rpath,/repo/runtime/.libs'], timeout=900)
+    rc, o = _rp.run_native(exe, ['search'])
+    return dict(steps=[dict(kind='native contract-checking search: NewOrderSingle with Text lengths 1..1200, with and without a signed trailer; independent wire-format checker', rc=rc, output=o[-1500:])],
+                reproduced=rc == 1)
+
+
+replayers['k_enc'] = _replay_k_enc
 replayers['k_sched'] = _replay_k_sched
 replayers['k_log'] = _replay_k_log
 replayers['k_sid'] = _replay_k_sid
